@@ -386,7 +386,7 @@ func c16GenDiff(rng *h.Rng, deep, wide bool) c16DiffCase {
 		var par c16GenNode
 		if len(pool) > 0 && !(wide && rng.Chance(70)) && rng.Chance(75) {
 			par = pool[rng.Intn(len(pool))]
-			if deep && rng.Chance(70) {
+			if deep && rng.Chance(85) {
 				par = pool[len(pool)-1]
 			}
 		}
@@ -491,6 +491,40 @@ func c16GenDiff(rng *h.Rng, deep, wide bool) c16DiffCase {
 	return c
 }
 
+// both sides from real profiles pushed through the real writer: the stored rows of 1–3 profiles per side, projected to one
+// sample type the way the reader's query does; function tables as stored
+func c16DiffFromProfiles(r *h.Result, rng *h.Rng) (c16DiffCase, bool) {
+	types := c16Types(rng)
+	pool := c16FnPool(rng)
+	tname := types[0][0] + ":" + types[0][1]
+	var c c16DiffCase
+	for side := 0; side < 2; side++ {
+		var sd c16Side
+		seen := map[uint64]bool{}
+		for k := rng.Range(0, 3); k > 0; k-- {
+			p := c16GenProfile(rng, types, pool, 12, 7, 0, 6)
+			st := c16Ingest(p, rng)
+			if st.Err != "" {
+				return c, false
+			}
+			sd.Rows = append(sd.Rows, c16TypeRows(st, tname)...)
+			for _, id := range st.FnSeq {
+				if !seen[id] {
+					seen[id] = true
+					sd.Fns = append(sd.Fns, [2]string{strconv.FormatUint(id, 10), st.Fns[id]})
+				}
+			}
+		}
+		if side == 0 {
+			c.Left = sd
+		} else {
+			c.Right = sd
+		}
+	}
+	r.Count("diff:from-stored-profiles")
+	return c, true
+}
+
 func c16DiffCaseRun(r *h.Result, c c16DiffCase, ops, impl *[]string, cases *[]any) {
 	got, fb, err := c16RenderDiff(c)
 	op := c16DiffOp(c)
@@ -535,6 +569,11 @@ func c16DiffStream(r *h.Result, rng *h.Rng, n int, withCorpus bool, ops, impl *[
 	}
 	for i := 0; i < n; i++ {
 		c := c16GenDiff(rng, i%9 == 7, i%9 == 8)
+		if i%10 == 3 {
+			if c2, ok := c16DiffFromProfiles(r, rng); ok {
+				c = c2
+			}
+		}
 		c16DiffCaseRun(r, c, ops, impl, cases)
 		if i%60 == 0 {
 			r.Sample(map[string]any{"stream": "diff", "left_rows": len(c.Left.Rows), "right_rows": len(c.Right.Rows), "left_fns": len(c.Left.Fns), "right_fns": len(c.Right.Fns)})
